@@ -23,6 +23,16 @@ def fcase(m, n, pat, colperm=0, permidx=0, sym=0, tune="t111", umode=0, flags=0,
     return (m, n, hex(pat), colperm, permidx, sym) + tuple(t) + (umode, flags, symcols) + ((lwork, woff, failat) if (lwork or failat) else ())
 
 
+def etree_reach_cases(tier):
+    cs = []
+    for n_ in ((6, 8, 9) if tier == "quick" else (6, 7, 8, 9, 10, 12)):
+        fam = C.symm_family(n_, 60 if tier == "quick" else 300, density=2) + C.symm_family(n_, 60 if tier == "quick" else 300, seed=777, density=3) + C.symm_family(n_, 30 if tier == "quick" else 200, seed=99, density=4)
+        for pat in fam:
+            for sym_, cp in ((1, 0), (1, 2)) + (((0, 3),) if (pat >> 5) & 1 else ()):
+                cs.append(fcase(n_, n_, pat, sym=sym_, colperm=cp, tune="t_sym" if (pat >> 3) & 1 else "t_dflt", symcols=1 << (n_ - 1)))
+    return cs
+
+
 def reach_cases(tier):
     """kernel-reach cases: only the columns in symcols are symbolic, the rest hold fixed generic values, so the pivot order of the concrete part
     is fixed and the wide (>=4 / 8-column) update kernels, sup-col updates and 2-D blocking execute with symbolic operands"""
@@ -35,7 +45,7 @@ def reach_cases(tier):
             cs.append(fcase(n_, n_, pat, tune=tn, symcols=1 << (n_ - 1)))
             cs.append(fcase(n_, n_, pat, tune=tn, symcols=3 << (n_ - 2)))
             if tier != "quick": cs.append(fcase(n_, n_, pat, tune=tn, symcols=1 << (n_ // 2)))
-    return cs
+    return cs + etree_reach_cases(tier)
 
 
 def factor_cases(tier, purpose="C02", prec="d"):
@@ -182,6 +192,12 @@ def gssv_cases(tier, prec="d", purpose="C01"):
         if not cplx:
             for pat in C.full_diag_plus(4, 2) + [C.dense(4, 4), C.arrow(4), C.band(4, 1, 1)]:
                 for tn in ("t122", "tn1n"): cs.append(gcase(4, pat, tune=tn, storage=(pat >> 3) & 1))
+    # etree-shape reach: structurally symmetric families under SymmetricMode (heap_relax_snode) and plain mode (relax_snode), concrete A, symbolic B
+    for n_ in ((6, 8, 9) if tier == "quick" else (6, 7, 8, 9, 10, 12)):
+        fam = C.symm_family(n_, 60 if tier == "quick" else 300, density=2) + C.symm_family(n_, 60 if tier == "quick" else 300, seed=777, density=3) + C.symm_family(n_, 30 if tier == "quick" else 200, seed=99, density=4)
+        for pat in fam:
+            for sym_, cp in ((1, 0), (1, 2)) + (((0, 0),) if (pat >> 5) & 1 else ()):
+                cs.append(gcase(n_, pat, sym=sym_, colperm=cp, tune="t_sym" if (pat >> 3) & 1 else "t_dflt", symcols=0, nrhs=1))
     # kernel reach: concrete A with symbolic right-hand sides (solve kernels), and symbolic trailing columns (factor kernels)
     shapes = [(5, C.dense(5, 5)), (6, C.band(6, 2, 2)), (7, C.dense(7, 7)), (10, C.dense(10, 10)), (10, C.band(10, 4, 1))] if tier == "quick" else \
              [(4, C.dense(4, 4)), (5, C.dense(5, 5)), (6, C.band(6, 2, 2)), (5, C.arrow(5)), (7, C.dense(7, 7)), (9, C.band(9, 1, 1)), (9, C.arrow(9)), (10, C.dense(10, 10)), (10, C.band(10, 4, 1)), (12, C.dense(12, 12))]
